@@ -160,6 +160,7 @@ func propC09(w *World, r *Run) {
 	ruleComposedSQL(w, r, "C09.g")
 	ruleContentLengthUnknownIsNotEmpty(w, r, "C09.i")
 	ruleServeHTTP(w, r, "C09.j", "C09.j", "C09.j")
+	ruleEndpointHygiene(w, r, "C09.j")
 	ruleParseBodyRefusesOnlyForm(w, r, "C09.k")
 }
 
